@@ -14,7 +14,7 @@ EXTENDS AwQuery, SequencesExt, Json, IOUtils
 CONSTANTS Sample        \* number of random deeper programs
 
 \* ---- structural layer ----------------------------------------------------------------------
-LitNames == {"s_abc", "s_empty", "s_comma", "s_brack", "s_paren", "s_brace", "s_eq", "s_sq", "s_dq", "s_space"}
+LitNames == {"s_abc", "s_empty", "s_comma", "s_brack", "s_paren", "s_brace", "s_eq", "s_sq", "s_dq", "s_space", "s_open", "s_close"}
 Ints == {I(0), I(7), I(42)}
 Atoms == Ints \cup {S(n) : n \in LitNames}
 AtomsS == {I(7), S("s_comma"), S("s_sq"), S("s_brack")}
@@ -46,13 +46,16 @@ InLits == {L(<<c, a>>) : c \in SC3, a \in AtomsS} \cup {L(<<a, c>>) : c \in SC3,
 QB(b) == C("query_bucket", <<S(b)>>)
 EvL0 == {QB("b1"), QB("b2"), L(<<>>)}
 Classes(cl) == L(<<L(<<cl, D(<<E("regex", S("re1"))>>)>>)>>)
+\* the same regex restricted to one key: the rule dictionary as written decides, not an earlier rule with the same regex
+ClassesSel(cl) == L(<<L(<<cl, D(<<E("regex", S("re1")), E("select_keys", L(<<S("app")>>))>>)>>)>>)
 KeyPreserving(x, y) ==
   {C("filter_keyvals", <<x, S("app"), L(<<S("x")>>)>>), C("exclude_keyvals", <<x, S("app"), L(<<S("x"), S("s_abc")>>)>>),
    C("filter_keyvals_regex", <<x, S("title"), S("re1")>>),
    C("filter_period_intersect", <<x, y>>), C("union_no_overlap", <<x, y>>), C("concat", <<x, y>>),
    C("limit_events", <<x, I(2)>>), C("sort_by_timestamp", <<x>>), C("sort_by_duration", <<x>>), C("flood", <<x>>),
    C("split_url_events", <<x>>), C("simplify_window_titles", <<x, S("title")>>),
-   C("categorize", <<x, Classes(L(<<S("c1"), S("c2")>>))>>), C("tag", <<x, Classes(S("tagA"))>>)}
+   C("categorize", <<x, Classes(L(<<S("c1"), S("c2")>>))>>), C("tag", <<x, Classes(S("tagA"))>>),
+   C("categorize", <<x, ClassesSel(L(<<S("c1")>>))>>), C("tag", <<x, ClassesSel(S("tagA"))>>)}
 Other(x, y) ==
   {C("period_union", <<x, y>>), C("merge_events_by_keys", <<x, L(<<S("app"), S("title")>>)>>), C("merge_events_by_keys", <<x, L(<<>>)>>),
    C("chunk_events_by_key", <<x, S("app")>>), C("sum_durations", <<x>>)}
@@ -93,7 +96,10 @@ ReRead == {<<Stmt("a", f), Stmt("RETURN", L(<<V("a"), QB("b1")>>))>> : f \in Key
 Repeat == {<<Stmt("x", a), Stmt("x", C("concat", <<V("x"), b>>)), Stmt("x", C("concat", <<V("x"), b>>)), Stmt("RETURN", V("x"))>> : a \in LA3, b \in LA3}
      \cup {<<Stmt("a", e), Stmt("b", V("a")), Stmt("a", f), Stmt("b", V("a")), Stmt("RETURN", L(<<V("a"), V("b")>>))>> : e \in AtomsS, f \in AtomsS \ {I(7)}}
      \cup {<<Stmt("RETURN", V("true")), Stmt("x", a), Stmt("RETURN", C("limit_events", <<V("x"), I(1)>>)), Stmt("x", b), Stmt("RETURN", C("limit_events", <<V("x"), I(1)>>))>> : a \in LA3, b \in LA3}
-Structural == Single(Atoms \cup Lists1 \cup Dicts1 \cup Lit2 \cup SCalls \cup InLits) \cup Vars1 \cup Reuse \cup Repeat
+\* strings whose brackets do not balance, in front of later statements: a bracket inside a string is text, not structure
+Unbalanced == {<<Stmt("x", S(a)), Stmt("y", L(<<V("x"), S(b)>>)), Stmt("RETURN", C("concat", <<V("y"), L(<<S(a), I(7)>>)>>))>> : a \in {"s_open", "s_close"}, b \in {"s_open", "s_close", "s_abc"}}
+         \cup {<<Stmt("RETURN", D(<<E("s_abc", S(a))>>)), Stmt("z", V("RETURN")), Stmt("RETURN", L(<<V("z"), S(b)>>))>> : a \in {"s_open", "s_close"}, b \in {"s_open", "s_close"}}
+Structural == Unbalanced \cup Single(Atoms \cup Lists1 \cup Dicts1 \cup Lit2 \cup SCalls \cup InLits) \cup Vars1 \cup Reuse \cup Repeat
 WithBuiltins == Single(Builtins1 \cup Builtins2 \cup BInLits) \cup Vars2 \cup ReRead
 
 \* ---- random deeper programs -----------------------------------------------------------------
